@@ -1,5 +1,6 @@
 import BddProofs.Reach
 import BddProofs.BitsFit
+import BddProofs.ReachCap
 /-! # C17 — the unique table is a sound hash-consing store under every put/collect history
 
 Model: `P.Table α` (`BddModel/Table.lean`), generic in the value type with any `MyHash` (adversarial
@@ -99,6 +100,19 @@ theorem C17_words_fit {s : St} (hg : Good s) (hcap : s.storage.vals.size ≤ 214
 example : Bits.entNext 0#32 = 0#32 ∧ Bits.entOccupied 0#32 = false ∧ s4.storage.vals.size ≤ 2147483648 :=
   ⟨Bits.ent_fresh.1, Bits.ent_fresh.2, newWith_cap new4_ok⟩
 
+
+/-- … unconditionally for every state a history can reach (successes and caught failures): no operation
+changes the capacity of the table (`FrameCap.lean`: a syntactic induction over every operation, error
+results included), a new manager has at most `2^31` cells, hence the packed words never lose an index -/
+theorem C17_words_fit_every_state {s : St} (hr : ReachableF s) :
+    s.storage.vals.size ≤ 2147483648 ∧
+    (∀ i n, s.nodes i = some n →
+        i < 2147483648 ∧ n.low.idx < 2147483648 ∧ n.high.idx < 2147483648 ∧
+        Arr.rd s.storage.nxs i < 2147483648) ∧
+    (∀ b, b < s.storage.buckets.size → Arr.rd s.storage.buckets b < 2147483648) :=
+  have hc := reachableF_cap hr
+  ⟨hc, Good.words_fit (reachableF_good hr) hc⟩
+
 end P
 #print axioms P.C17_put
 #print axioms P.C17_distinct
@@ -109,3 +123,4 @@ end P
 #print axioms P.C17_every_reachable_state
 #print axioms P.C17_cell_word
 #print axioms P.C17_words_fit
+#print axioms P.C17_words_fit_every_state
